@@ -33,5 +33,7 @@ def main() -> int:
         if hasattr(mod, "warm"):
             print("warming cache for", prop)
             mod.warm()
+    from . import selftest
+    rc = selftest.main()
     print(f"setup done in {time.time()-t0:.1f}s")
-    return 0
+    return rc
